@@ -15,27 +15,29 @@ Import ListNotations.
 
 Inductive cls :=
 | CObject | CInt | CBool | CFloat | CComplex | CStr | CTuple | CNone | CType
-| CA | CB | CC | CFalsy | CAC | CE | CIE | CEnumMeta.
+| CA | CB | CC | CFalsy | CAC | CE | CIE | CEnumMeta
+| CList | CDict | CSequence | CMapping.
 
 Definition all_cls : list cls :=
   [CObject; CInt; CBool; CFloat; CComplex; CStr; CTuple; CNone; CType;
-   CA; CB; CC; CFalsy; CAC; CE; CIE; CEnumMeta].
+   CA; CB; CC; CFalsy; CAC; CE; CIE; CEnumMeta; CList; CDict; CSequence; CMapping].
 
 Definition cls_code (c : cls) : nat :=
   match c with
   | CObject => 0 | CInt => 1 | CBool => 2 | CFloat => 3 | CComplex => 4
   | CStr => 5 | CTuple => 6 | CNone => 7 | CType => 8
   | CA => 9 | CB => 10 | CC => 11 | CFalsy => 12 | CAC => 13 | CE => 14 | CIE => 15
-  | CEnumMeta => 16
+  | CEnumMeta => 16 | CList => 17 | CDict => 18 | CSequence => 19 | CMapping => 20
   end.
 
 Definition cls_eqb (a b : cls) : bool := Nat.eqb (cls_code a) (cls_code b).
 
 Definition mem_cls (c : cls) (l : list cls) : bool := existsb (cls_eqb c) l.
 
-(* inspect.getmro restricted to the universe, sorted by code
+(* all universe classes b with issubclass(c, b) (real issubclass: the ABCs Sequence and
+   Mapping count through registration), sorted by code
    (class A: pass; class B(A); class C; class Falsy(A) defines __bool__;
-    class AC(A, C); class E(Enum){a,b}; class IE(IntEnum){x=1,y=2}) *)
+    class AC(A, C); class E(Enum){a,b}; class IE(IntEnum){x=1,y=2}; EnumMeta = type(E)) *)
 Definition mro (c : cls) : list cls :=
   match c with
   | CObject => [CObject]
@@ -43,8 +45,8 @@ Definition mro (c : cls) : list cls :=
   | CBool => [CObject; CInt; CBool]
   | CFloat => [CObject; CFloat]
   | CComplex => [CObject; CComplex]
-  | CStr => [CObject; CStr]
-  | CTuple => [CObject; CTuple]
+  | CStr => [CObject; CStr; CSequence]
+  | CTuple => [CObject; CTuple; CSequence]
   | CNone => [CObject; CNone]
   | CType => [CObject; CType]
   | CA => [CObject; CA]
@@ -55,6 +57,10 @@ Definition mro (c : cls) : list cls :=
   | CE => [CObject; CE]
   | CIE => [CObject; CInt; CIE]
   | CEnumMeta => [CObject; CType; CEnumMeta]
+  | CList => [CObject; CList; CSequence]
+  | CDict => [CObject; CDict; CMapping]
+  | CSequence => [CObject; CSequence]
+  | CMapping => [CObject; CMapping]
   end.
 
 (* TypeObject.artificial_bases: int -> float, complex ; float -> complex *)
@@ -139,13 +145,15 @@ Inductive obj :=
 | OInst (c : cls) (k : N)   (* instance of user class c with identity k *)
 | OEnum (c : cls) (i : nat) (* i-th member of enum class c; IE members have int value i+1 *)
 | OClass (c : cls)
-| OTuple (l : list elt).
+| OTuple (l : list elt)
+| OList (l : list elt)
+| ODict (kvs : list (elt * elt)).
 
 Definition class_of (o : obj) : cls :=
   match o with
   | ONone => CNone | OBool _ => CBool | OInt _ => CInt | OFloat _ => CFloat
   | OStr _ => CStr | OInst c _ => c | OEnum c _ => c | OClass c => meta c
-  | OTuple _ => CTuple
+  | OTuple _ => CTuple | OList _ => CList | ODict _ => CDict
   end.
 
 (* objects that can exist: instances only of the user classes, enum members in range *)
@@ -184,6 +192,8 @@ Definition obj_eqb (a b : obj) : bool :=
   | OEnum c i, OEnum c' i' => cls_eqb c c' && Nat.eqb i i'
   | OClass c, OClass c' => cls_eqb c c'
   | OTuple x, OTuple y => list_eqb elt_eqb x y
+  | OList x, OList y => list_eqb elt_eqb x y
+  | ODict x, ODict y => list_eqb (fun a b => elt_eqb (fst a) (fst b) && elt_eqb (snd a) (snd b)) x y
   | _, _ => false
   end.
 
@@ -216,6 +226,7 @@ Definition py_eq (a b : obj) : bool :=
   | _, _ =>
       match a, b with
       | OTuple x, OTuple y => list_eqb elt_py_eq x y
+      | OList x, OList y => list_eqb elt_py_eq x y
       | _, _ => obj_eqb a b
       end
   end.
@@ -231,12 +242,16 @@ Definition truthy (o : obj) : bool :=
   | OEnum _ _ => true
   | OClass _ => true
   | OTuple l => match l with [] => false | _ => true end
+  | OList l => match l with [] => false | _ => true end
+  | ODict l => match l with [] => false | _ => true end
   end.
 
 Definition len_of (o : obj) : option nat :=
   match o with
   | OStr s => Some (length s)
   | OTuple l => Some (length l)
+  | OList l => Some (length l)
+  | ODict l => Some (length l)
   | OClass c => if is_enum c then Some (enum_size c) else None   (* EnumMeta.__len__ *)
   | _ => None
   end.
@@ -244,14 +259,24 @@ Definition len_of (o : obj) : option nat :=
 (* ------------------------------------------------------------------ *)
 (* values *)
 
-Inductive lenext := MinLen (n : Z) | MaxLen (n : Z).
+(* the extensions narrowing adds to a value: the len custom checks, and HasAttrExtension
+   (says nothing about membership, but an annotated value is no longer a plain literal) *)
+Inductive lenext := MinLen (n : Z) | MaxLen (n : Z) | HasAttrExt (name : N).
+
+(* GenericValue(list, [t]), GenericValue(dict, [k, v]), patma.MatchableSequence
+   (Annotated[Sequence, Exclude[str | bytes | bytearray]]) and signature.MappingValue
+   (Mapping[K, V]) *)
+Inductive gen := GList (t : ety) | GDict (k v : ety) | GSeqPat | GMapPat.
+Definition gen_cls (g : gen) : cls :=
+  match g with GList _ => CList | GDict _ _ => CDict | GSeqPat => CSequence | GMapPat => CMapping end.
 
 Inductive bval :=
 | VAny
 | VKnown (o : obj)
 | VTyped (c : cls)
 | VSub (c : cls)                       (* type[c] *)
-| VTuple (ms : list (bool * ety)).     (* SequenceValue(tuple, [(is_many, member)]) *)
+| VTuple (ms : list (bool * ety))      (* SequenceValue(tuple, [(is_many, member)]) *)
+| VGen (g : gen).                      (* a GenericValue / the two patma pattern values *)
 
 (* a non-union value, possibly Annotated with MinLen/MaxLen custom checks *)
 Inductive sval := SV (b : bval) (exts : list lenext).
@@ -266,6 +291,7 @@ Definition lenext_eqb (a b : lenext) : bool :=
   match a, b with
   | MinLen x, MinLen y => Z.eqb x y
   | MaxLen x, MaxLen y => Z.eqb x y
+  | HasAttrExt x, HasAttrExt y => N.eqb x y
   | _, _ => false
   end.
 
@@ -301,16 +327,23 @@ Definition member_b (o : obj) (b : bval) : bool :=
   | VTyped c => sub_art (class_of o) c
   | VSub c => match o with OClass c' => sub_art c' c | _ => false end
   | VTuple ms => match o with OTuple es => match_members ms es | _ => false end
+  | VGen g =>
+      match g with
+      | GList t => match o with OList es => forallb (fun e => elt_member e t) es | _ => false end
+      | GDict k v => match o with
+                     | ODict kvs => forallb (fun kv => elt_member (fst kv) k && elt_member (snd kv) v) kvs
+                     | _ => false
+                     end
+      | GSeqPat => sub_art (class_of o) CSequence && negb (sub_art (class_of o) CStr)
+      | GMapPat => sub_art (class_of o) CMapping
+      end
   end.
 
 Definition ext_holds (o : obj) (e : lenext) : bool :=
-  match len_of o with
-  | Some n =>
-      match e with
-      | MinLen k => Z.leb k (Z.of_nat n)
-      | MaxLen k => Z.leb (Z.of_nat n) k
-      end
-  | None => false
+  match e with
+  | HasAttrExt _ => true
+  | MinLen k => match len_of o with Some n => Z.leb k (Z.of_nat n) | None => false end
+  | MaxLen k => match len_of o with Some n => Z.leb (Z.of_nat n) k | None => false end
   end.
 
 Definition member_s (o : obj) (s : sval) : bool :=
